@@ -12,8 +12,8 @@ import (
 )
 
 // 2^-10 brings prices to the order of 0.005, where rounding to cents or absolute thresholds bite
-var priceFactors = []float64{1.0 / (1 << 20), 1.0 / 1024, 0.125, 16, 1024}
-var volumeFactors = []float64{0.25, 32}
+var priceFactors = []float64{1.0 / (1 << 40), 1.0 / (1 << 20), 0.125, 1024, 1 << 30}
+var volumeFactors = []float64{1.0 / (1 << 20), 32, 1 << 30}
 
 func isVolumeField(f string) bool { return f == "V" }
 
@@ -43,9 +43,15 @@ func c18IndUnit(c *core.Ctx, e *cat.Ind, cfg []float64) {
 		budget, extra = 6000, 4
 	}
 	rows := alphabet(e.In, true)
-	if len(e.In) > 1 {
-		rows = rows[:4] // the four bars with positive range and volume
+	rowSets := [][][]float64{rows}
+	if len(e.In) > 1 && len(rows) == len(sigmaBars) {
+		// the four bars with positive range and volume; and the two zero-volume bars (one of them flat) with two regular
+		// ones: a halted session makes a ratio infinite or undefined in every unit alike (Inf and NaN scale to themselves)
+		rowSets = [][][]float64{rows[:4], {rows[5], rows[6], rows[0], rows[1]}}
+	} else if len(e.In) > 1 {
+		rowSets = [][][]float64{rows[:min(4, len(rows))]}
 	}
+	rows = rowSets[0]
 	k, n := trieShape(w, len(rows), extra, budget)
 	label := e.Name + fmtCfg(cfg)
 	hasVol := false
@@ -56,62 +62,64 @@ func c18IndUnit(c *core.Ctx, e *cat.Ind, cfg []float64) {
 	}
 	var nodes, nontriv, compared int64
 	exec := func(in [][]float64) *IndRun { return RunInd(e.New(cfg), in, 0, mc.Options{}) }
-	walkTrie(k, n, rows, len(e.In), exec, func(nd, _ *trieNode) {
-		nodes++
-		c.Executions++
-		c.Transitions += int64(nd.run.Res.Events)
-		if !nd.run.Healthy() || len(nd.word) <= w {
-			return
-		}
-		nontriv++
-		check := func(factor float64, volume bool, degs []int) {
-			if degs == nil {
-				return
-			}
-			r2 := exec(scaleCols(e.In, nd.in, factor, volume))
+	for _, rows := range rowSets {
+		walkTrie(k, n, rows, len(e.In), exec, func(nd, _ *trieNode) {
+			nodes++
 			c.Executions++
-			c.Transitions += int64(r2.Res.Events)
-			if !r2.Healthy() {
+			c.Transitions += int64(nd.run.Res.Events)
+			if !nd.run.Healthy() || len(nd.word) <= w {
 				return
 			}
-			for j := range nd.run.Outs {
-				a, b := nd.run.Outs[j], r2.Outs[j]
-				if len(a) != len(b) {
-					c.Fail("", fmt.Sprintf("%s input %s: output %d has %d values, %d after rescaling", label, fmtCols(nd.in), j, len(a), len(b)), nil)
+			nontriv++
+			check := func(factor float64, volume bool, degs []int) {
+				if degs == nil {
 					return
 				}
-				f := math.Pow(factor, float64(degs[j]))
-				for i := range a {
-					compared++
-					want := a[i] * f
-					if !(bitsEq(b[i], want) || (math.IsNaN(a[i]) && math.IsNaN(b[i])) || (a[i] == 0 && b[i] == 0)) {
-						what := "prices"
-						if volume {
-							what = "volumes"
-						}
-						key := ""
-						if e.ScaleKnown != nil {
-							key = e.ScaleKnown(cfg, volume)
-						}
-						c.Fail(key, fmt.Sprintf("%s input %s: multiplying all %s by %g changes output %d value %d from %.17g to %.17g, homogeneity of degree %d requires %.17g", label, fmtCols(nd.in), what, factor, j, i, a[i], b[i], degs[j], want),
-							map[string]any{"indicator": e.Name, "config": cfg, "input": nd.in, "factor": factor, "volume": volume})
+				r2 := exec(scaleCols(e.In, nd.in, factor, volume))
+				c.Executions++
+				c.Transitions += int64(r2.Res.Events)
+				if !r2.Healthy() {
+					return
+				}
+				for j := range nd.run.Outs {
+					a, b := nd.run.Outs[j], r2.Outs[j]
+					if len(a) != len(b) {
+						c.Fail("", fmt.Sprintf("%s input %s: output %d has %d values, %d after rescaling", label, fmtCols(nd.in), j, len(a), len(b)), nil)
 						return
+					}
+					f := math.Pow(factor, float64(degs[j]))
+					for i := range a {
+						compared++
+						want := a[i] * f
+						if !(bitsEq(b[i], want) || (math.IsNaN(a[i]) && math.IsNaN(b[i])) || (a[i] == 0 && b[i] == 0)) {
+							what := "prices"
+							if volume {
+								what = "volumes"
+							}
+							key := ""
+							if e.ScaleKnown != nil {
+								key = e.ScaleKnown(cfg, volume)
+							}
+							c.Fail(key, fmt.Sprintf("%s input %s: multiplying all %s by %g changes output %d value %d from %.17g to %.17g, homogeneity of degree %d requires %.17g", label, fmtCols(nd.in), what, factor, j, i, a[i], b[i], degs[j], want),
+								map[string]any{"indicator": e.Name, "config": cfg, "input": nd.in, "factor": factor, "volume": volume})
+							return
+						}
 					}
 				}
 			}
-		}
-		for _, f := range priceFactors {
-			check(f, false, e.PriceDeg)
-		}
-		if hasVol {
-			for _, f := range volumeFactors {
-				check(f, true, e.VolDeg)
+			for _, f := range priceFactors {
+				check(f, false, e.PriceDeg)
 			}
-		}
-		if nodes == 30 {
-			c.Sample(map[string]any{"indicator": e.Name, "config": cfg, "input": nd.in, "price_factors": priceFactors, "price_degrees": e.PriceDeg})
-		}
-	})
+			if hasVol {
+				for _, f := range volumeFactors {
+					check(f, true, e.VolDeg)
+				}
+			}
+			if nodes == 30 {
+				c.Sample(map[string]any{"indicator": e.Name, "config": cfg, "input": nd.in, "price_factors": priceFactors, "price_degrees": e.PriceDeg})
+			}
+		})
+	}
 	c.States += nodes
 	c.Evaluations += nodes
 	c.Nontrivial += nontriv
@@ -131,51 +139,60 @@ func c18StratUnit(c *core.Ctx, e *cat.Strat, cfg []float64) {
 	k, n := trieShape(w, 4, extra, budget)
 	label := e.Name + fmtCfg(cfg)
 	var nodes, nontriv int64
-	walkWords(k, n, func(word []int, _ any) any {
-		rows := rowsOf(word)
-		base := RunStrategy(e.New(cfg), cat.Snapshots(rows), 0, mc.Options{})
-		nodes++
-		c.Executions++
-		c.Transitions += int64(base.Res.Events)
-		if !base.Healthy() || len(word) <= w {
-			return nil
-		}
-		nontriv++
-		try := func(factor float64, volume bool) {
-			r2rows := make([][5]float64, len(rows))
-			for i, r := range rows {
-				r2rows[i] = r
-				if volume {
-					r2rows[i][4] *= factor
-				} else {
-					for f := 0; f < 4; f++ {
-						r2rows[i][f] *= factor
+	// two bar alphabets: the four regular bars, and the two zero-volume bars (one of them flat) with two regular ones - a
+	// halted session makes ratios infinite or undefined in every unit alike, so the recommendations must still agree
+	for _, symbols := range [][]int{{0, 1, 2, 3}, {5, 6, 0, 1}} {
+		symbols := symbols
+		walkWords(k, n, func(word []int, _ any) any {
+			mapped := make([]int, len(word))
+			for i, sy := range word {
+				mapped[i] = symbols[sy%len(symbols)]
+			}
+			rows := rowsOf(mapped)
+			base := RunStrategy(e.New(cfg), cat.Snapshots(rows), 0, mc.Options{})
+			nodes++
+			c.Executions++
+			c.Transitions += int64(base.Res.Events)
+			if !base.Healthy() || len(word) <= w {
+				return nil
+			}
+			nontriv++
+			try := func(factor float64, volume bool) {
+				r2rows := make([][5]float64, len(rows))
+				for i, r := range rows {
+					r2rows[i] = r
+					if volume {
+						r2rows[i][4] *= factor
+					} else {
+						for f := 0; f < 4; f++ {
+							r2rows[i][f] *= factor
+						}
 					}
 				}
-			}
-			r2 := RunStrategy(e.New(cfg), cat.Snapshots(r2rows), 0, mc.Options{})
-			c.Executions++
-			c.Transitions += int64(r2.Res.Events)
-			if r2.Healthy() && fmt.Sprint(r2.Actions) != fmt.Sprint(base.Actions) {
-				what := "prices"
-				if volume {
-					what = "volumes"
+				r2 := RunStrategy(e.New(cfg), cat.Snapshots(r2rows), 0, mc.Options{})
+				c.Executions++
+				c.Transitions += int64(r2.Res.Events)
+				if r2.Healthy() && fmt.Sprint(r2.Actions) != fmt.Sprint(base.Actions) {
+					what := "prices"
+					if volume {
+						what = "volumes"
+					}
+					c.Fail("", fmt.Sprintf("%s bars %v: multiplying all %s by %g changes the recommendations from %v to %v", label, rows, what, factor, base.Actions, r2.Actions),
+						map[string]any{"strategy": e.Name, "config": cfg, "bars": rows, "factor": factor, "volume": volume})
 				}
-				c.Fail("", fmt.Sprintf("%s bars %v: multiplying all %s by %g changes the recommendations from %v to %v", label, rows, what, factor, base.Actions, r2.Actions),
-					map[string]any{"strategy": e.Name, "config": cfg, "bars": rows, "factor": factor, "volume": volume})
 			}
-		}
-		for _, f := range priceFactors {
-			try(f, false)
-		}
-		for _, f := range volumeFactors {
-			try(f, true)
-		}
-		if nodes == 20 {
-			c.Sample(map[string]any{"strategy": e.Name, "config": cfg, "bars": rows, "actions": base.Actions})
-		}
-		return nil
-	})
+			for _, f := range priceFactors {
+				try(f, false)
+			}
+			for _, f := range volumeFactors {
+				try(f, true)
+			}
+			if nodes == 20 {
+				c.Sample(map[string]any{"strategy": e.Name, "config": cfg, "bars": rows, "actions": base.Actions})
+			}
+			return nil
+		})
+	}
 	c.States += nodes
 	c.Evaluations += nodes
 	c.Nontrivial += nontriv
@@ -185,7 +202,7 @@ func c18StratUnit(c *core.Ctx, e *cat.Strat, cfg []float64) {
 func init() {
 	core.Register(&core.Check{
 		ID:     "C18",
-		Rule:   "input tries (positive alphabets / bars with positive range and volume, depth w+2 quick / w+4 thorough) for every indicator with catalogued homogeneity degrees, every scale-free strategy x configuration, every decorator and a quarter (thorough: all) of the compounds over scale-free strategies; every node is executed on the original series and on the series with all prices multiplied by 2^-20, 2^-10, 2^-3, 2^4, 2^10 and (separately) all volumes by 2^-2, 2^5; oracle: indicator outputs equal original x factor^degree bit-for-bit, strategy actions identical; states = trie nodes, non-trivial = nodes longer than the warm-up",
+		Rule:   "input tries (positive alphabets / bars with positive range and volume, for strategies also the alphabet with the two zero-volume bars, depth w+2 quick / w+4 thorough) for every indicator with catalogued homogeneity degrees, every scale-free strategy x configuration, every decorator and a quarter (thorough: all) of the compounds over scale-free strategies; every node is executed on the original series and on the series with all prices multiplied by 2^-40, 2^-20, 2^-3, 2^10, 2^30 and (separately) all volumes by 2^-20, 2^5, 2^30; oracle: indicator outputs equal original x factor^degree bit-for-bit, strategy actions identical; states = trie nodes, non-trivial = nodes longer than the warm-up",
 		Assume: []string{"scale factors are powers of two (IEEE arithmetic is exactly covariant, so no tolerance); magnitudes stay far from under/overflow", "homogeneity degrees per output come from the catalogue (documented formulas)"},
 		Units: func(tier string) []core.Unit {
 			var us []core.Unit
